@@ -152,3 +152,310 @@ func uintLitOK(b []byte) bool {
 //@ loop 0 invariant small: 1 <= n && n <= 19 ==> pow10(n) <= bigc("10000000000000000000") && pow10(n-1) >= 1
 //@ loop 0 invariant at20: n == 20 ==> pow10(n) == bigc("100000000000000000000") && pow10(n-1) == bigc("10000000000000000000")
 //@ loop 0 decreases len(b) - n
+
+// ---------------------------------------------------------------- hex escapes
+
+//@ spec isHex
+func isHex(c byte) bool {
+	return ('0' <= c && c <= '9') || ('a' <= c && c <= 'f') || ('A' <= c && c <= 'F')
+}
+
+//@ spec hexVal
+func hexVal(c byte) uint16 {
+	if '0' <= c && c <= '9' {
+		return uint16(c - '0')
+	}
+	if 'a' <= c && c <= 'f' {
+		return uint16(c-'a') + 10
+	}
+	return uint16(c-'A') + 10
+}
+
+// hexAcc is the value of the hex digit string b[0:k].
+//
+//@ spec hexAcc
+func hexAcc(b []byte, k int) uint16 {
+	if k <= 0 {
+		return 0
+	}
+	return hexAcc(b, k-1)*16 + hexVal(b[k-1])
+}
+
+//@ func parseHexUint16
+//@ property C01 C03 C11 C20
+//@ ensures ok-iff: ok == (len(b) == 4 && isHex(b[0]) && isHex(b[1]) && isHex(b[2]) && isHex(b[3]))
+//@ ensures value: ok ==> v == hexVal(b[0])*4096+hexVal(b[1])*256+hexVal(b[2])*16+hexVal(b[3])
+//@ ensures zero: !ok ==> v == 0
+//@ loop 0 invariant range: 0 <= i && i < 4 && len(b) == 4
+//@ loop 0 invariant hex: vForall(0, i, func(j int) bool { return isHex(b[j]) })
+//@ loop 0 invariant acc: v == hexAcc(b, i)
+//@ loop 0 decreases 4 - i
+
+// escPrefixOK: byte c is admissible at position i of a (possibly truncated)
+// \uXXXX escape; with lower set, of an escape in \uDC00..\uDFFF.
+//
+//@ spec escPrefixOK
+func escPrefixOK(c byte, i int, lower bool) bool {
+	switch {
+	case i == 0:
+		return c == '\\'
+	case i == 1:
+		return c == 'u'
+	case i == 2 && lower:
+		return c == 'd' || c == 'D'
+	case i == 3 && lower:
+		return ('c' <= c && c <= 'f') || ('C' <= c && c <= 'F')
+	case i < 6:
+		return isHex(c)
+	}
+	return true
+}
+
+//@ func hasEscapedUTF16Prefix
+//@ property C01 C05 C20
+//@ ensures all: result == vForall(0, len(b), func(i int) bool { return escPrefixOK(b[i], i, lowerSurrogateHalf) })
+//@ ensures first6: result == escPrefixAt(b, 0, lowerSurrogateHalf)
+//@ loop 0 invariant 0 <= i && i < len(b)
+//@ loop 0 invariant vForall(0, i, func(j int) bool { return escPrefixOK(b[j], j, lowerSurrogateHalf) })
+//@ loop 0 decreases len(b) - i
+
+// ---------------------------------------------------------------- simple fast paths
+
+//@ func ConsumeSimpleString
+//@ property C01 C03 C20
+//@ ensures range: n == 0 || (2 <= n && n <= len(b))
+//@ ensures quotes: n > 0 ==> b[0] == '"' && b[n-1] == '"'
+//@ ensures plain: n > 0 ==> vForall(1, n-1, func(i int) bool { return b[i] < 0x80 && escapeASCII[b[i]] == 0 })
+//@ loop 0 invariant 1 <= n && n <= len(b) && b[0] == '"'
+//@ loop 0 invariant vForall(1, n, func(i int) bool { return b[i] < 0x80 && escapeASCII[b[i]] == 0 })
+//@ loop 0 decreases len(b) - n
+
+//@ func ConsumeSimpleNumber
+//@ property C01 C10 C20
+//@ ensures range: 0 <= n && n <= len(b)
+//@ ensures digits: n > 0 ==> vForall(0, n, func(i int) bool { return isDigit(b[i]) })
+//@ ensures nolead: n > 1 ==> b[0] != '0'
+//@ ensures maximal: n > 0 && n < len(b) ==> b[n] != '.' && b[n] != 'e' && b[n] != 'E' && (b[0] == '0' || !isDigit(b[n]))
+//@ loop 0 invariant 1 <= n && n <= len(b) && '1' <= b[0] && b[0] <= '9'
+//@ loop 0 invariant vForall(0, n, func(i int) bool { return isDigit(b[i]) })
+//@ loop 0 decreases len(b) - n
+
+// ---------------------------------------------------------------- numbers
+//
+// The JSON number grammar (RFC 8259, section 6) as a deterministic automaton,
+// written from the ABNF:  [ minus ] int [ frac ] [ exp ].
+
+const (
+	nInit   = iota // nothing read
+	nMinus         // "-"
+	nZero          // "0" or "-0"                    (accepting)
+	nInt           // [1-9][0-9]*                    (accepting)
+	nDot           // int "."
+	nFrac          // int "." 1*DIGIT               (accepting)
+	nE             // ... ("e"|"E")
+	nESign         // ... ("e"|"E") ("+"|"-")
+	nExp           // ... exponent digits           (accepting)
+	nPreExp        // mantissa complete, only an exponent may follow (accepting; resumption only)
+	nDead
+)
+
+//@ spec numStep
+func numStep(s int, c byte) int {
+	d := '0' <= c && c <= '9'
+	e := c == 'e' || c == 'E'
+	switch s {
+	case nInit:
+		if c == '-' {
+			return nMinus
+		}
+		if c == '0' {
+			return nZero
+		}
+		if d {
+			return nInt
+		}
+	case nMinus:
+		if c == '0' {
+			return nZero
+		}
+		if d {
+			return nInt
+		}
+	case nZero:
+		if c == '.' {
+			return nDot
+		}
+		if e {
+			return nE
+		}
+	case nInt:
+		if d {
+			return nInt
+		}
+		if c == '.' {
+			return nDot
+		}
+		if e {
+			return nE
+		}
+	case nDot:
+		if d {
+			return nFrac
+		}
+	case nFrac:
+		if d {
+			return nFrac
+		}
+		if e {
+			return nE
+		}
+	case nE:
+		if c == '+' || c == '-' {
+			return nESign
+		}
+		if d {
+			return nExp
+		}
+	case nESign:
+		if d {
+			return nExp
+		}
+	case nExp:
+		if d {
+			return nExp
+		}
+	case nPreExp:
+		if e {
+			return nE
+		}
+	}
+	return nDead
+}
+
+//@ spec numAcc
+func numAcc(s int) bool {
+	return s == nZero || s == nInt || s == nFrac || s == nExp || s == nPreExp
+}
+
+// numEndPos/numEndState: maximal munch from position k in state s — the
+// position and state at which the automaton stops (input exhausted or no
+// transition).
+//
+//@ spec numEndPos
+func numEndPos(b []byte, k int, s int) int {
+	if k >= len(b) || k < 0 || numStep(s, b[k]) == nDead {
+		return k
+	}
+	return numEndPos(b, k+1, numStep(s, b[k]))
+}
+
+//@ spec numEndState
+func numEndState(b []byte, k int, s int) int {
+	if k >= len(b) || k < 0 || numStep(s, b[k]) == nDead {
+		return s
+	}
+	return numEndState(b, k+1, numStep(s, b[k]))
+}
+
+// numExact: scanning on from (k, s) has exactly the outcome (tp, ts).
+//
+//@ spec numExact
+func numExact(b []byte, k, s, tp, ts int) bool {
+	return numEndPos(b, k, s) == tp && numEndState(b, k, s) == ts
+}
+
+// numSame: as numExact, except that when the scan from (k, s) makes no step
+// the two end states only need to be accepting (s may be a stand-in such as
+// nPreExp for whichever accepting state the mantissa ended in).
+//
+//@ spec numSame
+func numSame(b []byte, k, s, tp, ts int) bool {
+	return numEndPos(b, k, s) == tp &&
+		(numEndState(b, k, s) == ts || ((k >= len(b) || numStep(s, b[k]) == nDead) && numAcc(s) && numAcc(ts)))
+}
+
+// numStart maps the scanner's resumption state to the automaton state from
+// which scanning continues at resumeOffset.
+//
+//@ spec numStart
+func numStart(state ConsumeNumberState) int {
+	switch state {
+	case withinIntegerDigits:
+		return nInt
+	case beforeFractionalDigits:
+		return nZero
+	case withinFractionalDigits:
+		return nFrac
+	case beforeExponentDigits:
+		return nPreExp
+	case withinExponentDigits:
+		return nExp
+	}
+	return nInit
+}
+
+// numStateOf is the resumption state reported for an accepting automaton state.
+//
+//@ spec numStateOf
+func numStateOf(s int) ConsumeNumberState {
+	switch s {
+	case nZero:
+		return beforeFractionalDigits
+	case nInt:
+		return withinIntegerDigits
+	case nFrac:
+		return withinFractionalDigits
+	case nPreExp:
+		return beforeExponentDigits
+	}
+	return withinExponentDigits
+}
+
+// Target of a (possibly resumed) call: the outcome of scanning from
+// (resumeOffset, numStart(state)).
+//
+//@ spec numTP
+func numTP(b []byte, resumeOffset int, state ConsumeNumberState) int {
+	return numEndPos(b, resumeOffset, numStart(state))
+}
+
+//@ spec numTS
+func numTS(b []byte, resumeOffset int, state ConsumeNumberState) int {
+	return numEndState(b, resumeOffset, numStart(state))
+}
+
+//@ func ConsumeNumberResumable
+//@ split
+//@ property C01 C05 C10 C20
+//@ requires 0 <= resumeOffset && resumeOffset <= len(b) && state <= withinExponentDigits
+//@ requires state == consumeNumberInit || state == beforeIntegerDigits ==> resumeOffset == 0
+//@ requires state == beforeExponentDigits ==> resumeOffset < len(b)
+//@ ensures ok-iff: (err == nil) == numAcc(numTS(b, resumeOffset, state))
+//@ ensures ok-n: err == nil ==> n == numTP(b, resumeOffset, state)
+//@ ensures ok-state: err == nil && n == len(b) ==> result1 == numStateOf(numTS(b, resumeOffset, state))
+//@ ensures eof-iff: isUnexpectedEOF(err) == (!numAcc(numTS(b, resumeOffset, state)) && numTP(b, resumeOffset, state) == len(b))
+//@ ensures eof-init: isUnexpectedEOF(err) && (numTS(b, resumeOffset, state) == nInit || numTS(b, resumeOffset, state) == nMinus) ==> n == 0 && result1 == beforeIntegerDigits
+//@ ensures eof-dot: isUnexpectedEOF(err) && numTS(b, resumeOffset, state) == nDot ==> n == len(b)-1 && result1 == beforeFractionalDigits && b[n] == '.'
+//@ ensures eof-e: isUnexpectedEOF(err) && numTS(b, resumeOffset, state) == nE ==> n == len(b)-1 && result1 == beforeExponentDigits && (b[n] == 'e' || b[n] == 'E')
+//@ ensures eof-esign: isUnexpectedEOF(err) && numTS(b, resumeOffset, state) == nESign ==> n == len(b)-2 && result1 == beforeExponentDigits && (b[n] == 'e' || b[n] == 'E')
+//@ ensures bad-n: err != nil && !isUnexpectedEOF(err) ==> n == numTP(b, resumeOffset, state) && n < len(b)
+//@ loop 0 invariant old(resumeOffset) <= n && n <= len(b) && state == old(state) && (state == withinIntegerDigits || state == withinFractionalDigits || state == withinExponentDigits)
+//@ loop 0 invariant numExact(b, n, numStart(state), numTP(b, old(resumeOffset), old(state)), numTS(b, old(resumeOffset), old(state)))
+//@ loop 0 decreases len(b) - n
+//@ at beforeFractional assert range: 0 <= n && n <= len(b)
+//@ at beforeFractional assert same: numSame(b, n, nZero, numTP(b, old(resumeOffset), old(state)), numTS(b, old(resumeOffset), old(state)))
+//@ at beforeFractional assert eof: n == len(b) ==> state == numStateOf(numTS(b, old(resumeOffset), old(state))) && numAcc(numTS(b, old(resumeOffset), old(state)))
+//@ at beforeFractional assert dot: n < len(b) && b[n] == '.' ==> numExact(b, n+1, nDot, numTP(b, old(resumeOffset), old(state)), numTS(b, old(resumeOffset), old(state)))
+//@ at beforeExponent assert range: 0 <= n && n <= len(b)
+//@ at beforeExponent assert same: numSame(b, n, nPreExp, numTP(b, old(resumeOffset), old(state)), numTS(b, old(resumeOffset), old(state)))
+//@ at beforeExponent assert eof: n == len(b) ==> state == numStateOf(numTS(b, old(resumeOffset), old(state))) && numAcc(numTS(b, old(resumeOffset), old(state)))
+//@ at beforeExponent assert exp: n < len(b) && (b[n] == 'e' || b[n] == 'E') ==> numExact(b, n+1, nE, numTP(b, old(resumeOffset), old(state)), numTS(b, old(resumeOffset), old(state)))
+//@ loop 1 invariant 1 <= n && n <= len(b)
+//@ loop 1 invariant numExact(b, n, nInt, numTP(b, old(resumeOffset), old(state)), numTS(b, old(resumeOffset), old(state)))
+//@ loop 1 decreases len(b) - n
+//@ loop 2 invariant 2 <= n && n <= len(b)
+//@ loop 2 invariant numExact(b, n, nFrac, numTP(b, old(resumeOffset), old(state)), numTS(b, old(resumeOffset), old(state)))
+//@ loop 2 decreases len(b) - n
+//@ loop 3 invariant 2 <= n && n <= len(b)
+//@ loop 3 invariant numExact(b, n, nExp, numTP(b, old(resumeOffset), old(state)), numTS(b, old(resumeOffset), old(state)))
+//@ loop 3 decreases len(b) - n
